@@ -32,3 +32,13 @@ package zkmulstar
 //@   nopanic[C10]
 //@   inline
 //@   requires group != nil && hash != nil && hash.h != nil && public.C != nil && public.D != nil && public.X != nil && pkok(public.Verifier) && pkvals(public.Verifier) && pkbig(public.Verifier) && pedok(public.Aux) && commitment != nil
+//@   use absorb
+//@   ensures[C10] result1 == nil ==> absorbed(hstate(hash), habs(iface(public.C)))
+//@   ensures[C10] result1 == nil ==> absorbed(hstate(hash), habs(iface(public.D)))
+//@   ensures[C10] result1 == nil ==> absorbed(hstate(hash), habs(iface(public.X)))
+//@   ensures[C10] result1 == nil ==> absorbed(hstate(hash), habs(iface(public.Verifier)))
+//@   ensures[C10] result1 == nil ==> absorbed(hstate(hash), habs(iface(public.Aux)))
+//@   ensures[C10] result1 == nil ==> absorbed(hstate(hash), habs(iface(commitment.A)))
+//@   ensures[C10] result1 == nil ==> absorbed(hstate(hash), habs(iface(commitment.Bx)))
+//@   ensures[C10] result1 == nil ==> absorbed(hstate(hash), habs(iface(commitment.E)))
+//@   ensures[C10] result1 == nil ==> absorbed(hstate(hash), habs(iface(commitment.S)))
